@@ -20,7 +20,8 @@
 (* and the exact final size is constrained only by FinalSizes (the triangle *)
 (* inequality of interning, stated as an ASSUME-style envelope).            *)
 (*                                                                         *)
-(* The functional core takes the configuration c = [kind, max, cpb, thr]    *)
+(* The functional core takes the configuration c = [kind, max, cpb, thr,    *)
+(* skip] (thr = MIN_COST_THRESHOLD, skip = MAX_SKIPPED_ITEMS)               *)
 (* and the state record as arguments so that the trace specification can    *)
 (* run many histories with different configurations; the state machine      *)
 (* below (variables + actions) is the same thing for the model checker.     *)
@@ -28,7 +29,7 @@
 EXTENDS Integers, Sequences, FiniteSets
 
 QuoteCost    == 20     \* block_cost starts with the cost of executing the quote
-MaxSkipped   == 6      \* MAX_SKIPPED_ITEMS
+MaxSkippedItems == 6   \* MAX_SKIPPED_ITEMS (c.skip of the real builders; scaled down by the model checker)
 WrapperVB    == 11     \* WRAPPER_VBYTES: interned weight of (q . ((spend_list)))
 InitSerSize  == 3      \* ff 01 ff is written by BlockBuilder::new()
 ClosingBytes == 2      \* "closing the lists at the end needs 2 extra bytes"
@@ -40,7 +41,7 @@ ByteCostOf(c, s) == IF IsCompressed(c) THEN (s + ClosingBytes) * c.cpb ELSE s * 
 \* the smallest block: what finalize() charges for the empty generator
 EmptyFinalCost(c) == QuoteCost + (IF IsCompressed(c) THEN InitSerSize + ClosingBytes ELSE WrapperVB) * c.cpb
 \* configurations the property quantifies over: the empty block fits
-ConfigOk(c) == c.kind \in {"compressed", "interned"} /\ c.cpb >= 1 /\ c.thr >= 0 /\ c.max >= EmptyFinalCost(c)
+ConfigOk(c) == c.kind \in {"compressed", "interned"} /\ c.cpb >= 1 /\ c.thr >= 0 /\ c.skip >= 0 /\ c.max >= EmptyFinalCost(c)
 
 (* state: blockCost, byteCost, size, skipped, acc = sequence of [b |-> batch, d |-> declared],       *)
 (* sigs = sequence (bag) of the signature ids aggregated into self.signature.                         *)
@@ -55,7 +56,7 @@ InitState(c) == [blockCost |-> QuoteCost, byteCost |-> 0, size |-> IF IsCompress
 \* cost(): the running estimate
 Est(c, st) == st.byteCost + WrapCost(c) + st.blockCost
 \* result(num_skipped)
-GiveUp(skipped) == skipped > MaxSkipped
+GiveUp(c, skipped) == skipped > c.skip
 
 \* AddTentative: the sizes the serializer / the vbyte sum may have after tentatively appending b
 TentativeSizes(c, st, b) ==
@@ -69,13 +70,13 @@ AddStep(c, st, b, d, s) ==
        [exit |-> "full", added |-> FALSE, done |-> TRUE,
         st |-> [st EXCEPT !.skipped = IF IsCompressed(c) THEN @ + 1 ELSE @]]
   ELSE IF Est(c, st) + d > c.max
-  THEN [exit |-> "declared", added |-> FALSE, done |-> GiveUp(st.skipped + 1), st |-> [st EXCEPT !.skipped = @ + 1]]
+  THEN [exit |-> "declared", added |-> FALSE, done |-> GiveUp(c, st.skipped + 1), st |-> [st EXCEPT !.skipped = @ + 1]]
   ELSE LET bc == ByteCostOf(c, s)
            est2 == bc + WrapCost(c) + st.blockCost + d
        IN IF est2 > c.max
           THEN \* undo: serializer restored / checkpoint restored; the compressed builder recomputes byte_cost
                \* from the restored size (which also ends the stale initial value 0)
-               [exit |-> "after", added |-> FALSE, done |-> GiveUp(st.skipped + 1),
+               [exit |-> "after", added |-> FALSE, done |-> GiveUp(c, st.skipped + 1),
                 st |-> [st EXCEPT !.skipped = @ + 1,
                                   !.byteCost = IF IsCompressed(c) THEN ByteCostOf(c, st.size) ELSE @]]
           ELSE [exit |-> "accept", added |-> TRUE, done |-> est2 + c.thr > c.max,
